@@ -110,6 +110,7 @@ class CheckLowHammingWeight:
 
 @contract(f"{RSA}::BatchGCD")
 class BatchGCD:
+  frame_props = ["C01", "C03", "C17"]
   """Remainder-tree induction is outside SMT reach: assumed here (shape + divisibility), decided by the bounded tier
   (bounded/c03.py) against the definition gcd(v_i, other * prod of the other distinct values)."""
   params = {"values": "list[int]", "other_values_prod": "Optional[int]"}
